@@ -98,6 +98,10 @@ SHORT = {
  'C08e': 'two sites: `add_new_mapping` appends the absorbed keys with `extend_from_slice` (duplicates when the chord fires twice), `newly_press` forgets the re-pressed key with `position` + `swap_remove` (one occurrence): after two fires a re-pressed modifier still counts as absorbed',
  'C10e': 'per-device loop: the ready devices are served through a helper that orders the tablet switch first and applies `.take(1)` to the whole chain: when one wake-up names both devices the keyboard is not read before the next poll',
  'C12e': 'per-device loop, two sites: the repeat outcome of `step` is applied once per wake-up after all devices were served (overwrites the Idle set by the On arm) and the `!in_tablet_mode` guard of the time-out branch removed as dead code: keyboard chunk with a repeating press + On in the same wake-up lets the timer write in tablet mode',
+ 'C13l': '`convert_row_to`: the Shift a character needs is not added when the output modifiers already hold a left or right Shift ("no key twice in `to`"): an upper-case letter or shifted symbol next to an explicit Shift on the output side loses its own Shift',
+ 'C14h': '`build_combinations`: an alias already seen is skipped (one table column per distinct alias) while `from_modifiers` still advances its column once per occurrence: a mapping that names the same alias twice in `from` indexes past the table and panics',
+ 'C17f': '`systemd_arg_escape`: quotes are escaped only as the first character of the pattern ("systemd honours quotes at the start of a word only"): a quote later in the pattern opens a quoted section',
+ 'C20f': 'per-device loop: an error of `poll` is treated like an interruption (back-off through `restart_count`, returned only at the third in a row; every device event resets the count): an isolated poll failure is never returned and writes continue',
 }
 rows = []
 for s in sorted(os.listdir('/verif/seeded')):
